@@ -64,7 +64,8 @@ def check(cx):
         else:
             letter = [a[2][1] for a in atoms(e.pc) if a[0] == 'eq' and a[2][0] == 'lit' and isinstance(a[2][1], str)
                       and entails(e.pc, Atom(a))[0]]
-            r1.violation('%s|raises-%s|%s' % (base, path_of(e.data['lhs'])[-1], ''.join(letter)),
+            gs = ' && '.join(sorted(show(c) for c in conjuncts(e.pc) if not any('chars' in repr(a) or a[0] in ('empty',) for a in atoms(c))))
+            r1.violation('%s|raises-%s|%s|under=%s' % (base, path_of(e.data['lhs'])[-1], ''.join(letter), gs),
                          '%s raises operator status outside OPER (no password involved): %s' % (base, desc), loc=cx.loc(e.node))
     r1.instance('OPER grant exists')
     if not any(short_fn(fn.replace('::{closure#0}', '')) == 'process_oper' for fn, e in raising):
